@@ -562,6 +562,20 @@ def c05(pid, tier, seed, t0):
     decls = copyd(sub(star, signed)) + copyd(sub(arr, signed)) + copyd(sub(nc, signed)) + copyd(sub(rnd, signed))
     if tier == "thorough":
         decls += tall_chunks(signed)
+    # signed fields NEXT TO unsigned fields of the same width (what one field's code generation decides must not leak into the
+    # next field's): both declaration orders, unsigned neighbour writable / write-only / read-only, scalar and array neighbours
+    def mfld(name, kind, tw, lo, acc, arr=None, stride=None):
+        return {"name": name, "kind": kind, "tw": tw, "ty": 0, "ranges": [[lo, lo + tw - 1]], "list": False, "array": arr or [],
+                "stride": stride or [], "access": acc}
+    for w in (8, 16, 32, 64):
+        for n in [x for x in (2 * w, 3 * w, 4 * w) if x <= 128]:
+            for uacc in ("rw", "w", "r"):
+                for first in ("u", "s"):
+                    fs = [mfld("u", "unat", w, 0, uacc), mfld("s", "inat", w, w, "rw")] + ([mfld("t", "inat", w, 2 * w, "rw")] if 3 * w <= n else [])
+                    if first == "s":
+                        fs = [fs[1], fs[0]] + fs[2:]
+                    decls.append({"id": 0, "name": "T", "n": n, "s": rustgen.storage_of(n), "def": [], "defform": "lit", "defsyn": "=",
+                                  "debug": False, "fields": fs, "enums": [], "nested": []})
     decls = vlib.vary_names(decls)
     declfile = save_decls("C05", decls)
     legs = [trace_leg(pid, tier, seed, "signed(star,arr,nc,rand)", decls, declfile, "get,write", q(tier, 3, 10), crate="rt-c05")]
